@@ -42,7 +42,22 @@ pub fn check_msg(m: &M, st: &mut Stats) -> Result<(), String> {
             let frame = Frame::from(msg.clone());
             for newline in [false, true] {
                 let wire = if newline { frame.to_bytes_with_newline() } else { frame.to_bytes() };
+                // a rejected text decoded on this thread just before must not influence the next decode
+                let mut bad = frame.to_bytes();
+                let last = bad.len() - 1;
+                bad[last] = if bad[last] == b'0' { b'1' } else { b'0' };
+                let _ = Frame::from_bytes(&bad);
+                let mut garbled: &[u8] = b":01000304\xff\xfe\r\n";
+                let _ = Frame::read(&mut garbled);
                 let back = Frame::from_bytes(&wire).map_err(|e| format!("wire form {} of {} does not decode: {e}", show_bytes(&wire), m.short()))?;
+                // the same trip through the stream interface (Frame::write -> Frame::read)
+                let mut pipe: Vec<u8> = vec![];
+                frame.write(&mut pipe).map_err(|e| format!("Frame::write into a Vec failed: {e}"))?;
+                let mut rd: &[u8] = &pipe;
+                let back2 = Frame::read(&mut rd).map_err(|e| format!("{} written with Frame::write does not read back: {e}", m.short()))?;
+                if back2 != back {
+                    return Err(format!("{}: Frame::write -> Frame::read gives {back2:?}, decoding the wire text gives {back:?}", m.short()));
+                }
                 let msg2 = Message::from(back);
                 if msg2 != msg {
                     let len = match m {
